@@ -444,6 +444,29 @@ pub fn c08(o: &Opts) -> i32 {
         }
         ctx.count("roots_shortly_before_a_stalemate_or_mate_of_a_side_with_pieces", n as u64);
     }
+    {
+        // forced mates several moves deep: the quicker mate must be preferred at every depth
+        let mut dr = Rng::new(o.seed).fork(tag("c08-deep-mates"));
+        let mut found = 0; let mut tries = 0;
+        while found < if q { 10 } else { 40 } && tries < 600 {
+            tries += 1;
+            let mut p = Pos::empty();
+            let strong = *dr.pick(&[Col::W, Col::B]);
+            let wk = *dr.pick(&[0u8, 1, 2, 3, 8, 16, 24, 7, 15, 63, 62, 56, 57, 48, 55, 59]);
+            p.sq[wk as usize] = Some((strong.opp(), Pc::K));
+            let mut free: Vec<u8> = (0..64u8).filter(|s| *s != wk).collect(); dr.shuffle(&mut free);
+            p.sq[free[0] as usize] = Some((strong, Pc::K));
+            p.sq[free[1] as usize] = Some((strong, *dr.pick(&[Pc::R, Pc::Q, Pc::R])));
+            p.turn = *dr.pick(&[Col::W, Col::B]);
+            if !p.is_consistent() || p.legal_moves().len() < 2 { continue; }
+            let mut n = 0u64;
+            if reference_minimax(&p, 3, &ms, &mut n).abs() < 16000 { continue; } // a mate in two at least; the depth-6 search sees many slower mates as well
+            found += 1;
+            retro_cases.push(C08Case::Fresh { p, depth: 6, pool: *dr.pick(&[1usize, 4, 8]) });
+            ctx.count("deep_searches_with_a_forced_mate_inside_the_horizon", 1);
+        }
+    }
+    { let mut pr = Rng::new(o.seed).fork(tag("c08-promotions")); for _ in 0..if q { 8 } else { 60 } { let p = gen::random_setup_profile(&mut pr, 3); if p.legal_moves().len() >= 2 && p.legal_moves().len() <= 30 && p.piece_count() <= 10 { cases.insert(0, C08Case::GameReuse { p, depth: 3, plies: 6, pool: *pr.pick(&[1usize, 4]) }); ctx.count("game_reuse_cases_from_promotion_ready_positions", 1); } } }
     // a game from the initial position, as the game loops play it
     cases.insert(0, C08Case::GameReuse { p: Pos::start(), depth: 2, plies: if q { 10 } else { 30 }, pool: 8 });
     cases.insert(1, C08Case::GameReuse { p: Pos::from_fen("r1bqkbnr/pppp1ppp/2n5/4p3/4P3/5N2/PPPP1PPP/RNBQKB1R w KQkq - 2 3").unwrap(), depth: 3, plies: if q { 6 } else { 24 }, pool: 16 });
@@ -516,6 +539,7 @@ fn c09_one(ctx: &Ctx, c: &C09Case, seed: u64) {
     let strategies = [Strategy::Random, Strategy::RunToCompletion, Strategy::Priorities, Strategy::PreemptionBounded, Strategy::Reverse, Strategy::RoundRobin];
     let pools = [2usize, 3, 4, 8, 16, 64];
     let mut conflicts: Vec<(u64, usize, usize)> = vec![];
+    let mut rw_conflicts: Vec<(u64, usize, usize)> = vec![];
     let mut plan: Vec<(Strategy, usize, bool)> = vec![];
     for s in 0..c.schedules {
         let controlled = s % 4 != 3;
@@ -579,9 +603,11 @@ fn c09_one(ctx: &Ctx, c: &C09Case, seed: u64) {
         let _ = runner.join();
         let (res, final_score) = match outcome { Some(x) => x, None => { ctx.inconclusive("search thread ended without a result"); continue; } };
         let (hash, decisions, cross, prewarm_hits, late, rewrites, ops, confl) = st_src.with_state(|st| (st.trace_hash, st.decisions.clone(), st.cross_task_hits, st.prewarmed_hits, st.late_arrivals, st.rewrites_different, st.writes + st.misses + st.own_hits + st.cross_task_hits + st.prewarmed_hits, st.conflicts.clone()));
+        let rw_confl = st_src.with_state(|st| st.rewrite_conflicts.clone());
         ctx.count(if controlled { "controlled_schedules_run" } else { "free_running_stress_runs" }, 1);
         ctx.count(&format!("runs_on_pool_of_{}", pool), 1);
-        if controlled { ctx.count(&format!("runs_with_strategy_{}", format!("{:?}", strategy).split('(').next().unwrap_or("")), 1); }
+        if controlled { ctx.count(&format!("runs_with_strategy_{}", format!("{:?}", strategy).split(|c| c == '(' || c == ' ').next().unwrap_or("")), 1); }
+        if let Strategy::WriteThenRead { .. } = strategy { if st_src.with_state(|st| st.wtr_completed) { ctx.count("write_then_read_schedules_that_hit_their_target", 1); } }
         ctx.count("cache_operations_observed", ops);
         ctx.count("cross_task_cache_hits_observed", cross);
         ctx.count("prewarmed_cache_hits_observed", prewarm_hits);
@@ -589,6 +615,7 @@ fn c09_one(ctx: &Ctx, c: &C09Case, seed: u64) {
         ctx.count("keys_rewritten_with_a_different_value_(auxiliary)", rewrites);
         if cross + prewarm_hits > 0 { ctx.distinct(hash); }
         ctx.count("distinct_trace_candidates", 1);
+        for x in rw_confl { if rw_conflicts.len() < 16 && !rw_conflicts.iter().any(|y| y.0 == x.0) { rw_conflicts.push(x); } }
         if conflicts.len() < 4 { for x in confl { if conflicts.len() < 4 && !conflicts.iter().any(|y| y.1 == x.1 && y.2 == x.2) { conflicts.push(x); } } }
         let replay = json!({"fen": p.to_fen(), "depth": c.depth, "context_history": c.warm.iter().map(|x| x.to_fen()).collect::<Vec<_>>(), "schedule": {"pool": pool, "strategy": format!("{:?}", strategy), "controlled": controlled, "seed": sseed, "decisions": decisions.iter().take(20000).collect::<Vec<_>>()}, "baseline": {"move": key_str(&base.0), "score": base.1}});
         match res {
@@ -607,8 +634,13 @@ fn c09_one(ctx: &Ctx, c: &C09Case, seed: u64) {
         // conflict-directed: for a key written by one task and read by another, force the writer first / last
         if s == plan.len() && !conflicts.is_empty() && plan.len() < c.schedules + 4 {
             for (_, w, _) in conflicts.clone().into_iter().take(2) { plan.push((Strategy::ConflictFirst(w), 8, true)); plan.push((Strategy::ConflictLast(w), 8, true)); }
-            ctx.count("conflict_directed_schedules_planned", 4.min(conflicts.len() as u64 * 2));
-            conflicts.clear();
+            // and: the writer runs up to its first write of the shared key, then the reader runs until it has read it
+            for (k, w, rd) in conflicts.clone().into_iter().take(3) { plan.push((Strategy::WriteThenRead { key: k, writer: w, reader: rd }, total.max(2), true)); }
+            // keys a task stored two different values under while another task looks them up (none when entries are final)
+            for (k, w, rd) in rw_conflicts.clone() { plan.push((Strategy::WriteThenRead { key: k, writer: w, reader: rd }, total.max(2), true)); }
+            ctx.count("schedules_directed_at_a_rewritten_key_read_by_another_task", rw_conflicts.len() as u64);
+            ctx.count("conflict_directed_schedules_planned", 4.min(conflicts.len() as u64 * 2) + 3.min(conflicts.len() as u64));
+            conflicts.clear(); rw_conflicts.clear();
         }
     }
 }
@@ -780,7 +812,7 @@ pub fn c09(o: &Opts) -> i32 {
     let traces = ctx.distinct_count();
     ctx.set_extra("distinct_interleavings_with_shared_cache_hits", json!(traces));
     ctx.finish(ctx.counter("controlled_schedules_run") + ctx.counter("free_running_stress_runs"),
-        "for each (position, depth, initial cache contents: empty or pre-warmed by a fixed list of earlier one-thread searches) the answer (move, score) of a one-thread in-order run is the baseline; the same search is then run under a controlled scheduler that serialises the root-move tasks at every shared-cache read/write and chooses the next task by seeded random / run-to-completion / PCT-style priorities / preemption-bounded / reverse / round-robin strategies on pools of 1-64 threads, under conflict-directed schedules (writer of a cross-task key forced first / last), and free-running with injected micro-sleeps; any different (move, score), panic or stall is a violation. distinct_nontrivial = distinct linearised cache-operation traces (hash) that contained at least one hit on an entry written by another task or by an earlier search",
+        "for each (position, depth, initial cache contents: empty or pre-warmed by a fixed list of earlier one-thread searches) the answer (move, score) of a one-thread in-order run is the baseline; the same search is then run under a controlled scheduler that serialises the root-move tasks at every shared-cache read/write and chooses the next task by seeded random / run-to-completion / PCT-style priorities / preemption-bounded / reverse / round-robin strategies on pools of 1-64 threads, under conflict-directed schedules (writer of a cross-task key forced first / last; writer run up to its first store of a shared key, then the reader until it has looked that key up), and free-running with injected micro-sleeps; any different (move, score), panic or stall is a violation. distinct_nontrivial = distinct linearised cache-operation traces (hash) that contained at least one hit on an entry written by another task or by an earlier search",
         &["interleavings are explored at the granularity of shared-cache operations; 'every schedule' is sampled", "a watchdog stall (120 s without scheduler activity) is reported as inconclusive"],
         &[("controlled_schedules_run", if q { 20 } else { 300 }), ("free_running_stress_runs", 4), ("cross_task_cache_hits_observed", 10), ("baselines", 3), ("positions_with_several_equally_quick_mates", 2)])
 }
